@@ -16,6 +16,9 @@ CMD = "mpd_client::client::Client::command"
 EMB = "mpd_client::commands::definitions::AlbumArtEmbedded::"
 ART = "mpd_client::commands::definitions::AlbumArt::"
 EXTEND = "bytes::bytes_mut::BytesMut::extend_from_slice"
+# ways of appending a chunk to the accumulation buffer (receiver = args[0], data = args[1])
+APPENDS = {EXTEND, "bytes::bytes_mut::BytesMut::unsplit", "bytes::buf::buf_mut::BufMut::put_slice", "bytes::buf::buf_mut::BufMut::put",
+           "core::iter::traits::collect::Extend::extend"}
 
 
 def awaited_result(body, fl, call_bb):
@@ -81,7 +84,7 @@ def run(rep, progs, tier):
 
 
 def one(rep, prog, cfg):
-    b = logic_body(prog, "mpd_client::client::Client::album_art", {EXTEND})
+    b = logic_body(prog, "mpd_client::client::Client::album_art", APPENDS)
     if b is None:
         rep.fail("C17.anchor", cfg, "Client::album_art", "public anchor Client::album_art (with an extend_from_slice) not found")
         return
@@ -91,7 +94,8 @@ def one(rep, prog, cfg):
         rep.sample({"C17 helpers spliced into album_art (%s)" % cfg: sorted(set(b.raw["inlined"]))})
     g = Cfg(b)
     fl = Flow(b)
-    ext = [(bb, t) for bb, t in b.calls() if EXTEND in callee_names(t)]
+    ext = [(bb, t) for bb, t in b.calls() if any(n in APPENDS for n in callee_names(t)) and len(t["args"]) == 2
+           and "BytesMut" in b.local_ty(op_local(t["args"][0]) if op_local(t["args"][0]) is not None else 0)]
     if len(ext) != 1:
         rep.fail("C17.progress", cfg + "/accumulation", b.loc(b.span), "expected one extend_from_slice, found %d" % len(ext))
         return
@@ -255,10 +259,31 @@ def one(rep, prog, cfg):
             rep.check(F in fr.blocks(st), "C17.fallback", cfg + "/%s reaches the fallback" % name, b.loc(b.blocks[F]["ts"]),
                       "the %s edge does not lead to the cover-file request" % name)
     # ---- C17.source ----
+    # the flag recording which command produced the first chunk: found by its role, not its name — a constant-only boolean
+    # that is set to true somewhere after the embedded reply and (directly or as an argument copy) decides a branch in the loop
+    tested = set()
+    for bb in loop:
+        t = b.blocks[bb]["t"]
+        if t["k"] == "switch":
+            l = op_local(t["discr"])
+            seen_l = set()
+            while l is not None and l not in seen_l:
+                seen_l.add(l)
+                if l in flags:
+                    tested.add(l)
+                    break
+                if l in fr.snap:
+                    l = fr.snap[l]
+                    continue
+                defs = [s2 for _, _, s2 in b.stmts() if s2["k"] == "assign" and s2["place"]["l"] == l and not s2["place"]["p"]]
+                l = op_local(defs[0]["rv"]["op"]) if len(defs) == 1 and defs[0]["rv"]["k"] == "use" else None
+    set_true = {s2["place"]["l"] for bb2, _, s2 in b.stmts() if s2["k"] == "assign" and s2["place"]["l"] in flags and s2["rv"]["k"] == "use"
+                and const_int(op_const(s2["rv"]["op"])) == 1 and bb2 in g.reach([E])}
+    source_flags = sorted(tested & set_true)
     for val, want in ((1, "embedded"), (0, "cover")):
         init2 = dict(init)
         for f in flags:
-            if b.locals[f]["name"] and "embed" in b.locals[f]["name"]:
+            if f in source_flags:
                 init2[f] = val
         # from the loop guard with the flag set, which chunk command is used
         hdr = guard[0]["bb"] if guard else min(loop)
@@ -269,12 +294,12 @@ def one(rep, prog, cfg):
         rep.check(kinds == {want}, "C17.source", "%s/flag=%d uses %s" % (cfg, val, "+".join(sorted(kinds)) or "-"), b.loc(b.span),
                   "with the embedded flag %s the loop requests chunks with %s, expected only the %s command" % (bool(val), sorted(kinds), want))
     flagname = [b.locals[f]["name"] for f in flags]
-    rep.check(any("embed" in (n or "") for n in flagname), "C17.source", cfg + "/source flag", b.loc(b.span),
+    rep.check(len(source_flags) == 1, "C17.source", cfg + "/source flag", b.loc(b.span),
               "no boolean flag recording which command produced the first chunk was found (idiom unknown: failing closed)", detail={"flags": flagname})
     # the flag is set exactly on the Some arm of the embedded reply
     if some_t is not None:
         for f in flags:
-            if "embed" in (b.locals[f]["name"] or ""):
+            if f in source_flags:
                 st = fr.reach(some_t, init)
                 vals_at_F = {dict(v).get(f) for bb, v in st if bb == F}
                 rep.check(not vals_at_F, "C17.source", cfg + "/found picture is not refetched", b.loc(b.blocks[F]["ts"]),
